@@ -428,6 +428,7 @@ Example C06_source_tie_match_inners_example :
   gen_matchInnersToPolygons [[P0]; []] [A] true = Err IndexOutOfRange /\
   gen_matchInnersToPolygons [] [A; B] false = Ok [[rev A]; [rev B]] /\
   gen_matchInnersToPolygons [[P0]; [P1]] [] false = Ok [[P0]; [P1]].
+Proof. vm_compute. repeat split; reflexivity. Qed.
 
 From Texel Require Import Prelude.GoLoop Prelude.GoLib Snap.ProofsGenRingHelpers.
 From Texel.Gen Require Import RingHelpersGen.
@@ -505,4 +506,49 @@ Example C06_source_tie_ring_helpers_example :
   gen_CountVals [(0, true); (1, false); (2, true)] true = Ok 2 /\
   gen_LastElement sq = Ok (Some (0,4)) /\ gen_LastElement [] = Ok None /\
   gen_ReverseClone sq = Ok [(0,4); (4,4); (4,0); (0,0)].
+Proof. vm_compute. repeat split; reflexivity. Qed.
+
+From Texel Require Import Prelude.GoMap Snap.ProofsGenDedupe.
+From Texel.Gen Require Import DedupeGen.
+
+(** ** tie G2 (loops): dedupeInnersOuters (snap.go) together with mapslicehelp.CountVals and
+    mapslicehelp.DeleteFromSliceByIndex, REGENERATED from source on this run (gen/DedupeGen.v), is the model's
+    [dedupeInnersOuters] ([dedupeStep] / [filter_idx], Snap/Model.v): equal results for every two lists of rings, [Err]
+    outcomes included (an empty ring makes ringsAreEqual panic).  Regenerated: both nested 3-clause [for] loops with
+    their [continue]s (Fixpoints on fuel [S lenAll], shown never to run out), the choice of ringI / ringJ, the counts,
+    [difference], [numOutersToDelete] / [numInnersToDelete], the marking loop, the early [return outers, inners] when
+    nothing is deleted, the two filtered results; CountVals at K = int, V = bool and DeleteFromSliceByIndex at
+    V = [][2]float64, X = bool, statement by statement.
+    Stays MODELLED (checked on the AST for the exact call shape, Prelude/GoMap.v): the builtin [map[int]IsOuter] used as
+    a set ([make], [m[k] = v], [_, ok := m[k]], [len(m)] = [[]] / [imap_set] / [imap_has] / [imap_len]); go-ordered-map
+    ([New] + [WithInitialData], [Set], [Len], iteration [Oldest()] .. [Next()] = [omap_set] / [omap_len] / the entries
+    in insertion order); [int(math.Abs(float64(a) - float64(b)))] = [Z.abs (a - b)]; [ringsAreEqual] = the model's
+    function (tied separately); [int] = Z, [[2]float64] = [pt]. *)
+Theorem C06_source_tie_dedupe_inners_outers :
+  (forall outs ins, gen_dedupeInnersOuters outs ins = dedupeInnersOuters outs ins) /\
+  (forall (m : omap) v, gen_CountVals m v = Ok (zlen (filter (fun e => Bool.eqb (snd e) v) m))) /\
+  (forall (s : list ring) (gd : imap) (md : list Z) off, (forall k, imap_has gd k = mem_Z k md) ->
+     gen_DeleteFromSliceByIndex s gd off = Ok (filter_idx s off md)).
+Proof.
+  split; [exact gen_dedupeInnersOuters_spec |].
+  split; [exact gen_CountVals_spec | exact gen_DeleteFromSliceByIndex_spec].
+Qed.
+Print Assumptions C06_source_tie_dedupe_inners_outers.
+
+(** the regenerated code runs.  Three equal outers (one rotated) and one equal inner (reversed): 3 and 1 differ, so
+    min(3, 1) = 1 of each is deleted, the first outer and the inner; the square and its reversal as inner are 1 and 1:
+    all but one of each = nothing is deleted.  Two equal outers and two equal inners: one of each goes.  Two equal
+    outers without an inner: min(2, 0) = 0 are deleted (the early return of the inputs).  An empty ring next to an
+    empty ring is the Go panic of ringsAreEqual. *)
+Example C06_source_tie_dedupe_inners_outers_example :
+  let a : ring := [(0,0); (4,0); (4,4)] in
+  let a' : ring := [(4,0); (4,4); (0,0)] in
+  let ar : ring := [(4,4); (4,0); (0,0)] in
+  let b : ring := [(9,9); (12,9); (12,12); (9,12)] in
+  gen_dedupeInnersOuters [a; b; a'; a] [ar; rev b] = Ok ([b; a'; a], [rev b]) /\
+  gen_dedupeInnersOuters [a; a'; b] [ar; rev a'; b] = Ok ([a'; b], [rev a'; b]) /\
+  gen_dedupeInnersOuters [a; a'] [b] = Ok ([a; a'], [b]) /\
+  gen_dedupeInnersOuters [[]; a] [[]] = Err IndexOutOfRange /\
+  gen_CountVals [(0, true); (2, true); (3, true); (4, false)] true = Ok 3 /\
+  gen_DeleteFromSliceByIndex [a; b; a'] [(3, true); (1, false)] 1 = Ok [b].
 Proof. vm_compute. repeat split; reflexivity. Qed.
